@@ -13,6 +13,7 @@ On break: harness `oracle` = the statement itself on the real generated filters:
 EQUAL on every chain (HTTP, TCP, TCP rules as HTTP filter) - no waiver; a disagreement is classified by the
 single policy value(s) whose known loose reading explains every request of the case, anything else is `other`.
 """
+import hashlib
 import json
 import os
 
@@ -35,45 +36,54 @@ def _fail_to_violation(stream, v, ops, rep):
     for p in parts:
         if p.startswith("class="):
             cls = p[6:]
-    # a classified input class is the fingerprint by itself (same defect whatever the direction / listener)
-    fp = cls if cls != "other" else "%s:%s" % (clause, cls)
+    # a classified input class is the fingerprint by itself (same defect whatever the direction / listener); an
+    # unclassified one carries a hash of its case, so that replays of different defects never share a file name
+    fp = cls if cls != "other" else "%s:%s:%s" % (clause, cls, hashlib.sha1("\n".join(ops[1:]).encode()).hexdigest()[:8])
     what = ("generated RBAC and AuthorizationPolicy semantics disagree (%s, input class %s): %s"
             % (clause, cls, " ".join(parts[2:6])))
     return (fp, what, {"stream": stream, "ops": ops, "oracle_verdict": v, "correspondence": rep})
 
 
+def _strip_reqs(case):
+    return [l for l in case if not l.startswith("req")]
+
+
 def oracle(ctx, stream, case_lines, rep):
-    """Property-level search on the implementation: first the shrunk case, then everything generated."""
+    """Property-level search on the implementation: the shrunk case (with its own requests and with requests derived
+    from the policy constants), then the validator-accepted cases on which model and implementation differ (same two
+    readings), then everything generated."""
     cands = []
     p = os.path.join(ctx.work, "%s.oracle.ops" % stream)
     with open(p, "w") as f:
         f.write("\n".join(case_lines) + "\n")
+        # the shrinker may have dropped the `req` lines (or the build the requests were made for): a case without
+        # `req` lines makes the harness derive requests from the policy constants on http / tcp / tcphttp builds
+        f.write("\n".join(_strip_reqs(case_lines)) + "\n")
     cands.append(p)
     g = os.path.join(ctx.work, "%s.gen.ops" % stream)
+    impl = os.path.join(ctx.work, "%s.run.impl" % stream)
+    model = os.path.join(ctx.work, "%s.run.model" % stream)
+    if os.path.exists(g) and os.path.exists(impl) and os.path.exists(model):
+        lo, li, lm = ctx.read_lines(g), ctx.read_lines(impl), ctx.read_lines(model)
+        if len(li) == len(lo) and len(lm) == len(lo):
+            picked, k = [], 0
+            for c in _cases(lo):
+                seg = range(k, k + len(c))
+                k += len(c)
+                if c[0].split()[3:4] == ["valid=1"] and any(li[j] != lm[j] for j in seg):
+                    picked.append(c)
+                    if len(picked) >= 40:
+                        break
+            if picked:
+                d = os.path.join(ctx.work, "%s.differing.ops" % stream)
+                with open(d, "w") as f:
+                    for c in picked:
+                        if stream != "compile":
+                            f.write("\n".join(c) + "\n")
+                        f.write("\n".join(_strip_reqs(c)) + "\n")
+                cands.append(d)
     if os.path.exists(g) and stream != "compile":
         cands.append(g)
-    elif os.path.exists(g):
-        # structural stream: turn the validator-accepted cases on which model and implementation differ
-        # into request-level searches (the harness derives requests from the policy constants)
-        impl = os.path.join(ctx.work, "compile.run.impl")
-        model = os.path.join(ctx.work, "compile.run.model")
-        if os.path.exists(impl) and os.path.exists(model):
-            lo, li, lm = ctx.read_lines(g), ctx.read_lines(impl), ctx.read_lines(model)
-            if len(li) == len(lo) and len(lm) == len(lo):
-                picked, k = [], 0
-                for c in _cases(lo):
-                    seg = range(k, k + len(c))
-                    k += len(c)
-                    if c[0].endswith("valid=1") and any(li[j] != lm[j] for j in seg):
-                        picked.append(c)
-                        if len(picked) >= 40:
-                            break
-                if picked:
-                    d = os.path.join(ctx.work, "compile.differing.ops")
-                    with open(d, "w") as f:
-                        for c in picked:
-                            f.write("\n".join(c) + "\n")
-                    cands.append(d)
     for ops in cands:
         out = os.path.join(ctx.work, os.path.basename(ops) + ".verdict")
         rc, log = ctx.harness("oracle", stream, ops, out)
@@ -103,10 +113,18 @@ def run_oracle_all(ctx, stream, ops):
     verdicts = ctx.read_lines(out)
     cases = list(_cases(ctx.read_lines(ops)))
     ctx.count("oracle.%s.cases" % stream, len(verdicts))
+    seen = getattr(ctx, "_c08_seen", None)
+    if seen is None:
+        seen = ctx._c08_seen = set(v["fingerprint"].rsplit(":", 1)[0] for v in ctx.violations)
     for i, v in enumerate(verdicts):
         if v.startswith("FAIL") and i < len(cases):
             ctx.count("oracle.%s.fail" % stream)
             fp, what, robj = _fail_to_violation(stream, v, cases[i], None)
+            # unclassified failures: one replay per (chain kind, direction), the first case found
+            coarse = fp.rsplit(":", 1)[0] if ":other:" in fp else fp
+            if ":other:" in fp and coarse in seen:
+                continue
+            seen.add(coarse)
             ctx.violation(fp, what, robj, True)
 
 
@@ -114,6 +132,13 @@ def hyps_coverage(ctx, stream, ops):
     """How much of the generated (policy, request) space satisfies the theorems' hypotheses, and a
     re-confirmation of their conclusion there (driver stream `hyps`, Lean side only)."""
     out = os.path.join(ctx.work, "%s.hyps.out" % stream)
+    if ctx.tier == "quick":
+        # evaluating the decidable hypotheses is the slowest step of the run: quick tier samples the first 500 cases
+        head = os.path.join(ctx.work, "%s.hyps.ops" % stream)
+        with open(head, "w") as f:
+            for c in list(_cases(ctx.read_lines(ops)))[:500]:
+                f.write("\n".join(c) + "\n")
+        ops = head
     rc, err = ctx.drv("hyps", ops, out)
     if rc != 0:
         ctx.tie_broken("hyps-stream:" + stream, err)
@@ -170,7 +195,7 @@ def run(ctx):
         return
     if not ctx.go_build():
         return
-    n = {"compile": ctx.n(2500, 30000), "requests": ctx.n(2500, 30000), "tcp": ctx.n(1500, 15000)}
+    n = {"compile": ctx.n(1800, 30000), "requests": ctx.n(1500, 30000), "tcp": ctx.n(900, 15000)}
     for stream in STREAMS:
         ctx.diff_stream(stream, n[stream], oracle=oracle, nontrivial=nontrivial)
     for stream in STREAMS:
@@ -184,6 +209,18 @@ def run(ctx):
         for f in sorted(os.listdir(cdir)):
             if f.endswith(".ops"):
                 run_oracle_all(ctx, f.split(".")[0], os.path.join(cdir, f))
+    # what the generated input space contains (harness `stats`): proxy types, the clause by which each policy
+    # attaches, build kinds, value forms, targetRef kinds
+    for stream in STREAMS:
+        g = os.path.join(ctx.work, "%s.gen.ops" % stream)
+        if os.path.exists(g):
+            out = os.path.join(ctx.work, "%s.stats" % stream)
+            rc, log = ctx.harness("stats", stream, g, out)
+            if rc == 0 and os.path.exists(out):
+                for l in ctx.read_lines(out):
+                    k, _, n = l.rpartition(" ")
+                    if k and n.isdigit():
+                        ctx.count("%s.gen.%s" % (stream, k), int(n))
     # count validator verdicts of the generated cases
     for stream in STREAMS:
         g = os.path.join(ctx.work, "%s.gen.ops" % stream)
@@ -194,6 +231,23 @@ def run(ctx):
 
 
 def replay(ctx, path):
+    with open(path, "rb") as f:
+        original = f.read()
+    try:
+        return _replay(ctx, path)
+    finally:
+        # a replay run re-records the violation under the same name: never rewrite the file that was replayed
+        try:
+            with open(path, "rb") as f:
+                changed = f.read() != original
+            if changed:
+                with open(path, "wb") as f:
+                    f.write(original)
+        except OSError:
+            pass
+
+
+def _replay(ctx, path):
     obj = json.load(open(path))
     rep = obj.get("replay", {})
     ops = rep.get("ops") or (rep.get("extra") or {}).get("ops")
@@ -220,20 +274,28 @@ def replay(ctx, path):
 MANIFEST = {
     "level_text": ("Lean 4 compiler-correctness proof: an executable model of Istio's AuthorizationPolicy -> Envoy RBAC compiler "
                    "(model.New/Generate, every generator incl. JWT and metadata ones, matcher.*, MigrateTrustDomain with aliases, Builder.build "
-                   "for ALLOW/DENY/AUDIT/CUSTOM, dry-run, filter order, selection) is proved, against Envoy's documented RBAC semantics, to "
-                   "decide every request EXACTLY as the statement says on HTTP and TCP chains, clause 2 included (compile_all_exact: ALLOW rule "
-                   "with any inexpressible field matches nothing - allow_rule_dropped; other actions are enforced on the remaining conditions "
-                   "- deny_rule_remaining), with nothing assumed translatable; each value->matcher translation has its own matcher_correct_* theorem, where one is "
-                   "false the exact exception is proved with a counterexample. The model is tied to /repo on every run by a structural "
-                   "differential against the real validator/selection/builder output and a request-level differential through a reference "
-                   "RBAC interpreter."),
+                   "for ALLOW/DENY/AUDIT/CUSTOM, dry-run, ShouldAttachPolicy / ListAuthorizationPolicies incl. waypoints, the authz plugin's lazy "
+                   "cache) is proved, against Envoy's documented RBAC semantics, to decide every request EXACTLY as the statement says on HTTP "
+                   "and TCP chains, clause 2 included (compile_all_exact: ALLOW rule with any inexpressible field matches nothing - "
+                   "allow_rule_dropped; other actions are enforced on the remaining conditions - deny_rule_remaining), with nothing assumed "
+                   "translatable; each value->matcher translation has its own matcher_correct_* theorem, where one is false the exact exception "
+                   "is proved with a counterexample. Selection: selectPolicies_eq_applies proves the code's control flow equal to an "
+                   "attachment rule written independently from the API documentation (selector / targetRefs / waypoint clauses). Plugin: "
+                   "plugin_cache_transparent / plugin_call_exact (every call on a shared builder yields the fresh result; nothing on sidecar "
+                   "outbound). Filter order: the decision is order-independent (decision_order_independent); the order AUDIT, DENY, ALLOW "
+                   "after CUSTOM is a structural property tied by the differential, its semantic content is deny_short_circuits (the DENY "
+                   "filter answers before ALLOW is consulted). The model is tied to /repo on every run by a structural differential against "
+                   "the real validator / config store / GetAuthorizationPolicies / plugin builder output and a request-level differential "
+                   "through a reference RBAC interpreter."),
     "level_note": ("Trusted: Lean kernel + {propext, Classical.choice, Quot.sound}; Envoy semantics written from docs (no Envoy in sandbox); "
-                   "the hand-written model (tied by differential testing on ~6500 policy sets / ~57000 requests quick); Go reference "
-                   "interpreter and Go spec. Main theorems hold under decidable hypotheses evaluated on every generated case (hypsOnB: "
-                   "values inside the proved matcher scope, plain trust-domain bundle, no `prefix*` trust-domain part, Istio-form peer identity, "
-                   "distinct generated names) - about 70% of the generated HTTP and 80% of the TCP (policy, request) pairs (most of the rest: requests with an empty host / header value or a non-Istio peer name). External authorizer of CUSTOM assumed "
-                   "to allow; path templates via a shared matcher. Known findings: unanchored namespace regex, requestPrincipals prefix "
-                   "split, header `*` matches an empty value, `prefix*` trust-domain part rewritten to the mesh trust domains; fixes: "
+                   "the hand-written model (tied by differential testing on ~4300 policy sets / ~37000 requests quick, 75000 / 620000 "
+                   "thorough); Go reference interpreter and Go spec. Main theorems hold under decidable hypotheses evaluated on generated "
+                   "cases (hypsOnB: per matcher - values inside the proved matcher scope and, only where a policy reads them, Istio-form "
+                   "peer names / non-empty header values; plain trust-domain bundle, no `prefix*` trust-domain part; distinct generated "
+                   "names) - about 88% of the generated (policy, request) pairs. External authorizer of CUSTOM assumed to allow; path "
+                   "templates via a shared matcher; a `when` key naming no attribute (rejected by validation) loses the rule under every "
+                   "action in statement and code (unknown_key_rule_lost). Known findings: unanchored namespace regex, requestPrincipals "
+                   "prefix split, header `*` matches an empty value, `prefix*` trust-domain part rewritten to the mesh trust domains; fixes: "
                    "`when source.trustDomain` values with '/' rejected by validation; hardening: dry-run CUSTOM policy enforced as DENY."),
     "technique": "Lean 4 compiler-correctness theorems over an exact model of the RBAC generators + structural and request-level differential with the real Go builder",
     "design_ref": "DESIGN.md section 5 C08",
